@@ -320,6 +320,9 @@ class Exporter:
                 tid = rng.choice(list(self.ip))
                 kind, t = self.ip[tid]
                 n = rng.choice([1, 1, 2, 3, 7])
+                if self.wild and rng.random() < 0.12:
+                    n = 0                         # a set without records (RFC 7011 3.3 wants one or more: non-conformant)
+                    self.dirty = True
                 recs = [ip_record(rng, t["fields"]) for _ in range(n)]
                 fixed = all(f["len"] != 65535 for f in t["fields"])
                 size = sum(f["len"] for f in t["fields"]) if fixed else 0
@@ -968,6 +971,7 @@ def fam_json(rng, n):
             ops.append(op_parse(1, msgs=c, want=["json"]))
         ops.append({"op": "assert_same", "a": 0, "b": 1, "key": "C16"})
         out.append(("json", ops))
+    out += fam_empty_values(rng)
     # targeted: float64 / u128 / strings
     f64_fields = IP_BY_TY.get("f64", [])
     for bits in specials:
@@ -979,6 +983,44 @@ def fam_json(rng, n):
         data = {"ipfix": {"m": {"exportTime": 2, "seq": 2, "odid": 1, "sets": [{"data": {"id": 256, "recs": [rec], "pad": ""}}]}}}
         out.append(("json-special", [op_new(0), op_parse(0, msgs=[tm, data], want=["json"])]))
     return out
+
+def fam_empty_values(rng):
+    """the 'empty values' of every result kind AFTER the templates are cached: sets without records / without template
+    records (alone, before and after a full set), zero-length variable fields, packets without records, empty buffer"""
+    out = []
+    strf, vecf = IP_BY_TY["str"][0], (IP_BY_TY.get("vec") or IP_BY_TY["str"])[0]
+    for kind in ("tpl", "opt"):
+        t = {"id": 300, "fields": [{"typ": 1, "len": 4, "ent": None}, {"typ": strf, "len": 65535, "ent": None}, {"typ": vecf, "len": 65535, "ent": None}]}
+        if kind == "opt":
+            t["scopeCount"] = 1
+        define = {("templates" if kind == "tpl" else "optTemplates"): {"ts": [t], "pad": ""}}
+        full = {"data": {"id": 300, "recs": [ip_record(rng, t["fields"]) for _ in range(2)], "pad": ""}}
+        empty = {"data": {"id": 300, "recs": [], "pad": ""}}
+        zero = {"data": {"id": 300, "recs": [[{"content": hx(rbytes(rng, 4)), "form": "fixed"}, {"content": "", "form": "short"}, {"content": "", "form": rng.choice(["short", "long"])}]], "pad": ""}}
+        def ipm(sets, k):
+            return {"ipfix": {"m": {"exportTime": k, "seq": k, "odid": 1, "sets": sets}}}
+        for shape in ([empty], [empty, full], [full, empty], [full, empty, full], [zero], [{"templates": {"ts": [], "pad": ""}}, full], [{"optTemplates": {"ts": [], "pad": ""}}]):
+            ops = [op_new(0)]
+            o = op_parse(0, msgs=[ipm([define], 1)], want=["json"]); o["nospec"] = True; ops.append(o)
+            o = op_parse(0, msgs=[ipm([full], 2)], want=["json"]); o["nospec"] = True; ops.append(o)
+            o = op_parse(0, msgs=[ipm(shape, 3)], want=["json", "export"]); o["nospec"] = True; ops.append(o)
+            out.append(("empty-ipfix-" + kind, ops))
+    # V9: data / options data / template sets without records, header-only packet
+    t9 = v9_template(rng, 300, lossless=True)
+    o9 = v9_opt_template(rng, 301)
+    def v9m(sets):
+        return {"v9": {"m": {"count": len(sets), "sysUpTime": 1, "unixSecs": 2, "seq": 3, "sourceId": 4, "sets": sets}}}
+    defs = v9m([{"templates": {"ts": [t9], "pad": ""}}, {"optTemplates": {"ts": [o9], "pad": ""}}])
+    full9 = {"data": {"id": 300, "recs": [v9_record(rng, t9)], "pad": ""}}
+    for shape in ([{"data": {"id": 300, "recs": [], "pad": ""}}], [{"data": {"id": 300, "recs": [], "pad": ""}}, full9], [full9, {"data": {"id": 301, "recs": [], "pad": ""}}],
+                  [{"templates": {"ts": [], "pad": ""}}, full9], [{"optTemplates": {"ts": [], "pad": ""}}], []):
+        ops = [op_new(0)]
+        o = op_parse(0, msgs=[defs], want=["json"]); o["nospec"] = True; ops.append(o)
+        o = op_parse(0, msgs=[v9m(shape)], want=["json", "export"]); o["nospec"] = True; ops.append(o)
+        out.append(("empty-v9", ops))
+    out.append(("empty-fixed", [op_new(0), op_parse(0, msgs=[msg_v5(rng, 0), msg_v7(rng, 0)], want=["json", "export"]), op_parse(0, hexs="", want=["json"])]))
+    return out
+
 
 def fam_extremal(rng, tier):
     """C01/C15: the proved worst cases for recursion depth and allocation, always AFTER a history that
